@@ -186,6 +186,22 @@ def body(run: Run, replay):
             run.trace_validated()
         except ImplError as ex:
             run.violation(str(ex), {}, {"raised": True})
+    # high coverage asked with LOW confidence: few samples suffice, the bracket of the root finder starts near them
+    for p in (0.9, 0.95, 0.99, 0.995):
+        for c in (0.02, 0.05, 0.1, 0.2):
+            for r2 in (1, 2, 3):
+                try:
+                    nn = int(stats.order_stats("n", p=p, c=c, r=r2))
+                except ImplError as ex:
+                    run.violation(str(ex), {}, {"raised": True})
+                    continue
+                run.case(("Ncorner", p, c, r2), part="order_stats vs the exact Conf term")
+                pq, cq = Fraction(p), Fraction(c)
+                def conf2(n_):
+                    return Fraction(0) if r2 > n_ else terms.evq(T["conflow"] if r2 < n_ - r2 else T["conf"], {"p": pq, "n": n_, "r": r2})
+                if nn < r2 or conf2(nn) < cq * (1 - Fraction(1, 10 ** 10)) or (nn > r2 and conf2(nn - 1) >= cq * (1 + Fraction(1, 10 ** 10))):     # decimal ties (0.1 = 1 - 0.9) go either way in binary64
+                    run.violation("order_stats('n', p=%g, c=%g, r=%d) = %d is not the smallest sample size with Conf >= c (Conf(n-1) = %.6g)" % (
+                        p, c, r2, nn, float(conf2(nn - 1)) if nn > r2 else -1.0), {"p": p, "c": c, "r": r2}, {"which": "n", "grid": "corner"})
     if __import__("os").environ.get("VERIF_DEBUG"): print("  term part done %.1fs" % (_t.time() - run.t0))
     # ---- k-factors
     mp.mp.dps = 25
